@@ -28,6 +28,7 @@ func init() {
 	register(&Prop{ID: "C19", Run: runC19, Replay: map[string]func(*mc.Ctx, json.RawMessage){
 		"sel":  replayer(c19EvalSel),
 		"hist": replayer(c19EvalHist),
+		"pair": replayer(c19EvalPair),
 	}})
 }
 
@@ -505,6 +506,70 @@ func c19RunHist(w *mc.W, cas c19Hist, countFrom int) (modelKey, implKey string, 
 	return fmt.Sprint(m.IDs), ik, true
 }
 
+// c19Pair: two coin sets built from prefixes of ONE caller-owned list that has spare capacity;
+// operations are applied to the sets in turn, then both sets and the caller's list are observed.
+// What is done to one set must not show in the other (the statement speaks about each set's own contents).
+type c19Pair struct {
+	List []int    `json:"list"`     // coin ids (1..3) of the caller's list
+	Cap  int      `json:"capacity"` // capacity of the caller's slice (>= len(List))
+	KA   int      `json:"prefix_a"` // set A = NewCoinSet(list[:KA])
+	KB   int      `json:"prefix_b"` // set B = NewCoinSet(list[:KB])
+	Ops  []string `json:"ops"`      // a:push1 | a:pop | b:shift | ...
+}
+
+func c19EvalPair(w *mc.W, cas c19Pair) {
+	c := w.Ctx()
+	w.Trace()
+	list := make([]coinset.Coin, len(cas.List), cas.Cap)
+	for i, id := range cas.List {
+		list[i] = c19SetCoins[id]
+	}
+	var sets [2]*coinset.CoinSet
+	var models [2]*ref.CoinSetModel
+	msg, p := mc.Guard(func() {
+		for k, n := range []int{cas.KA, cas.KB} {
+			sets[k] = coinset.NewCoinSet(list[:n])
+			models[k] = &ref.CoinSetModel{}
+			for _, id := range cas.List[:n] {
+				models[k].Push(id)
+			}
+		}
+		for _, op := range cas.Ops {
+			k := 0
+			if op[0] == 'b' {
+				k = 1
+			}
+			switch op[2:] {
+			case "push1", "push2", "push3":
+				id := int(op[6] - '0')
+				sets[k].PushCoin(c19SetCoins[id])
+				models[k].Push(id)
+			case "pop":
+				sets[k].PopCoin()
+				models[k].Pop()
+			case "shift":
+				sets[k].ShiftCoin()
+				models[k].Shift()
+			default:
+				panic("c19: unknown pair op " + op)
+			}
+		}
+	})
+	if p {
+		c.Violate("coinset/panic", "pair", cas, msg)
+		return
+	}
+	for k := range sets {
+		w.Eval()
+		if class, detail, _ := c19Observe(sets[k], models[k], ""); class != "" {
+			c.Violate(class+"/two-sets-from-one-list", "pair", cas, fmt.Sprintf("set %c: %s", 'A'+k, detail))
+			return
+		}
+	}
+	// (what happens to the caller's own slice is not part of the statement: a set may adopt it)
+	w.Outcome("two coin sets from one list: independent")
+}
+
 func c19EvalHist(w *mc.W, cas c19Hist) {
 	w.Trace()
 	c19RunHist(w, cas, 0)
@@ -846,6 +911,38 @@ func runC19(c *mc.Ctx) {
 		}
 		c19RunHist(w, h, from)
 	})
+	// ---- two coin sets built from prefixes of one caller-owned list with spare capacity
+	{
+		var pairs []c19Pair
+		pops := []string{"a:push1", "a:push3", "a:pop", "a:shift", "b:push2", "b:pop", "b:shift"}
+		var seqs [][]string
+		for _, x := range pops {
+			seqs = append(seqs, []string{x})
+			for _, y := range pops {
+				seqs = append(seqs, []string{x, y})
+				for _, z := range pops {
+					seqs = append(seqs, []string{x, y, z})
+				}
+			}
+		}
+		for _, l := range [][]int{{1, 2}, {1, 2, 3}, {3, 1}} {
+			for _, cp := range []int{len(l), len(l) + 1, len(l) + 4} {
+				for ka := 0; ka <= len(l); ka++ {
+					for kb := ka; kb <= len(l); kb++ {
+						for _, ops := range seqs {
+							pairs = append(pairs, c19Pair{List: l, Cap: cp, KA: ka, KB: kb, Ops: ops})
+						}
+					}
+				}
+			}
+		}
+		c.Space("two coin sets from prefixes of one list (3 lists x 3 capacities x prefix pairs) x every sequence of <= 3 operations on either set", int64(len(pairs)))
+		c.ParFor(int64(len(pairs)), func(w *mc.W, i int64) {
+			w.State()
+			c19EvalPair(w, pairs[i])
+		})
+		c.Sample("pair", c19Pair{List: []int{1, 2, 3}, Cap: 7, KA: 2, KB: 3, Ops: []string{"a:push3", "b:pop"}})
+	}
 	// ---- coin set: observation schedules ----------------------------------------------------------
 	// The runs above call every observer after every operation.  An observer that leaves something
 	// behind (a memoised slice, a lazily recomputed total) can then never be caught returning stale
